@@ -239,6 +239,32 @@ func main() {
 				hv.Fail("couples-roundtrip", desc(), fmt.Sprintf("touched files %v, written %v (without the unmatched author's row)", back.PeopleFiles, pf[:np]))
 			}
 		}
+		if msg == "" {
+			// what was read back can be written and read again (`hercules combine` re-serialises results it has read)
+			func() {
+				defer func() {
+					if r := recover(); r != nil {
+						hv.Fail("couples-second-roundtrip", desc(), fmt.Sprintf("writing a result that was read back panicked: %v", r))
+					}
+				}()
+				var b2 bytes.Buffer
+				if err := ca.Serialize(back, true, &b2); err != nil {
+					hv.Fail("couples-second-roundtrip", desc(), "writing a result that was read back failed: "+err.Error())
+					return
+				}
+				again, err := ca.Deserialize(b2.Bytes())
+				if err != nil {
+					hv.Fail("couples-second-roundtrip", desc(), "reading the re-written result failed: "+err.Error())
+					return
+				}
+				if !reflect.DeepEqual(again, back) {
+					a2 := again.(leaves.CouplesResult)
+					hv.Fail("couples-second-roundtrip", desc(), fmt.Sprintf("the result changes when it is written and read a second time: touched files %v -> %v, identities %q -> %q, files %q -> %q",
+						back.PeopleFiles, a2.PeopleFiles, leaves.VerifCouplesDict(back), leaves.VerifCouplesDict(a2), back.Files, a2.Files))
+				}
+				stats["couples_second_roundtrip"]++
+			}()
+		}
 		// developer statistics
 		ticks := map[int]map[int]*leaves.DevTick{}
 		for t := 0; t < rng.Intn(5); t++ {
@@ -329,6 +355,16 @@ func main() {
 				hv.Fail("devs-roundtrip", ddesc(), "ticks differ after the round trip: "+string(got))
 			} else if fmt.Sprint(leaves.VerifDevsDict(db)) != fmt.Sprint(dict) || leaves.VerifDevsTickSize(db) != int64(tickSize) {
 				hv.Fail("devs-roundtrip", ddesc(), "identity list or tick size differs after the round trip")
+			}
+			// second round trip
+			var b2 bytes.Buffer
+			if err := da.Serialize(db, true, &b2); err != nil {
+				hv.Fail("devs-second-roundtrip", ddesc(), "writing a result that was read back failed: "+err.Error())
+				return
+			}
+			again, err := da.Deserialize(b2.Bytes())
+			if err != nil || !reflect.DeepEqual(again, b) {
+				hv.Fail("devs-second-roundtrip", ddesc(), fmt.Sprintf("the result changes when it is written and read a second time (error %v)", err))
 			}
 		}()
 	}
